@@ -273,6 +273,24 @@ func init() {
 	regImpl("c02.closure", func(a []string) string {
 		r := rand.New(rand.NewSource(mustInt(a[0])))
 		b, hdr := genC02Book(r)
+		if hdr == nil && b.BookMeta == nil && r.Intn(4) == 0 {
+			// a line break inside name cells of sheets whose header layout is the default one (no name line given:
+			// the name is the whole cell with its line breaks removed — both generators must read it that way)
+			for si := range b.Sheets {
+				sh := &b.Sheets[si]
+				if len(sh.Meta) > 0 || len(sh.Rows) < 2 {
+					continue
+				}
+				names := append([]string{}, sh.Rows[0]...)
+				for c, nm := range names {
+					if len(nm) >= 4 && r.Intn(2) == 0 {
+						k := 1 + r.Intn(len(nm)-2)
+						names[c] = nm[:k] + "\n" + nm[k:]
+					}
+				}
+				sh.Rows = append([][]string{names}, sh.Rows[1:]...)
+			}
+		}
 		ro := runOpts{Header: hdr}
 		// proto output options: the written files (and the imports between them) are named with a suffix
 		if r.Intn(3) == 0 {
